@@ -284,3 +284,73 @@ impl Add<usize> for Shape {
         self.add_width(rhs)
     }
 }
+
+/// Kani harnesses (compiled only under `cfg(kani)`): width bookkeeping arithmetic.
+#[cfg(kani)]
+mod verif_kani {
+    use super::*;
+
+    // Inputs are bounded far above anything a real file can reach (2^32 columns / nesting levels /
+    // indent width); within those bounds no operation overflows, and each does exactly what its name says.
+    const BOUND: usize = 1 << 32;
+
+    fn any_shape() -> Shape {
+        let indent = Indent {
+            indent_width: kani::any(),
+            block_indent: kani::any(),
+            additional_indent: kani::any(),
+        };
+        kani::assume(indent.indent_width < (1 << 16));
+        kani::assume(indent.block_indent < (1 << 24));
+        kani::assume(indent.additional_indent < (1 << 24));
+        let shape = Shape {
+            indent,
+            offset: kani::any(),
+            column_width: kani::any(),
+            simple_heuristics: kani::any(),
+        };
+        kani::assume(shape.offset < BOUND);
+        shape
+    }
+
+    #[kani::proof]
+    fn shape_width_arithmetic() {
+        let shape = any_shape();
+        let width: usize = kani::any();
+        kani::assume(width < BOUND);
+
+        let level = shape.indent.block_indent + shape.indent.additional_indent;
+        assert!(shape.indent.indent_width() == level * shape.indent.indent_width);
+        assert!(shape.used_width() == level * shape.indent.indent_width + shape.offset);
+        assert!(shape.over_budget() == (shape.used_width() > shape.column_width));
+
+        let added = shape.add_width(width);
+        assert!(added.offset == shape.offset + width);
+        assert!(added.indent.indent_width() == shape.indent.indent_width());
+        assert!(added.column_width == shape.column_width);
+        assert!((shape + width).offset == added.offset);
+
+        let reset = shape.reset();
+        assert!(reset.offset == 0 && reset.column_width == shape.column_width);
+        assert!(reset.used_width() == shape.indent.indent_width());
+
+        assert!(shape.with_infinite_width().column_width == usize::MAX);
+        assert!(!shape.with_infinite_width().over_budget());
+    }
+
+    #[kani::proof]
+    fn indent_levels_never_overflow() {
+        // full usize domain: the level operations saturate instead of wrapping
+        let indent = Indent {
+            indent_width: kani::any(),
+            block_indent: kani::any(),
+            additional_indent: kani::any(),
+        };
+        let amount: usize = kani::any();
+        assert!(indent.increment_block_indent().block_indent >= indent.block_indent);
+        assert!(indent.increment_additional_indent().additional_indent >= indent.additional_indent);
+        assert!(indent.add_indent_level(amount).additional_indent >= indent.additional_indent);
+        assert!(indent.with_additional_indent(amount).additional_indent == amount);
+        assert!(indent.increment_block_indent().indent_width == indent.indent_width);
+    }
+}
